@@ -81,11 +81,16 @@ func vhRect() geometry.Rect {
 	return geometry.Rect{Min: geometry.Point{X: a, Y: b}, Max: geometry.Point{X: c, Y: d}}
 }
 
-//verif:cfg b_objects=2(point,rectangle) b_query=rectangle b_coordinates=any_float32-representable_value_in_[-180,180] b_ops=insert,optional_move,search maxwall=1200
+//verif:cfg b_objects=2(point,rectangle) b_query=rectangle b_coordinates=any_float32-representable_value_in_[-180,180] b_ops=optional_empty_predecessor,insert,optional_move,search maxwall=1200
 func VH_C02_index_filter() {
 	c := New()
 	pt := object.New("p", geojson.NewSimplePoint(geometry.Point{X: vhCoord(), Y: vhCoord()}), 0, field.List{})
 	rc := object.New("r", geojson.NewRect(vhRect()), 0, field.List{})
+	if vnondetBool() {
+		// the id first holds a spatial object with an empty geometry (counted, never indexed)
+		c.Set(object.New("p", geojson.NewMultiPoint(nil), 0, field.List{}))
+		vreach("was-empty")
+	}
 	c.Set(pt)
 	c.Set(rc)
 	if vnondetBool() {
